@@ -2,7 +2,8 @@
 //
 // Generated: 2..8 thread programs, each a scenario over its OWN contexts and files - write a
 // file, read one, validate a damaged one, copy chunks from an own source into an own target,
-// feed a range response to the download callbacks of an own target - with generator-chosen
+// feed a range response to the download callbacks of an own target, random-access chunk requests
+// with digest/range strings and error messages - with generator-chosen
 // yield / spin points between API calls to perturb the schedule; a start barrier releases all
 // threads together; logging is configured once before the threads start.
 // Oracle: (a) serial equivalence - the digest of each program's outputs (files, return codes,
@@ -24,11 +25,11 @@
 using pbt::Ctx; using pbt::Bytes;
 
 struct Prog {
-    int kind = 0;                         // 0 write 1 read 2 validate 3 copy 4 download
+    int kind = 0;                         // 0 write 1 read 2 validate 3 copy 4 download 5 random access + metadata strings
     std::vector<int> delays;              // consumed cyclically between API calls: 0 none, 1 yield, n>1 spin n*50
     // inputs (prepared in the main thread)
     Bytes content; lib::WCfg cfg; std::vector<lib::WOp> ops;            // write
-    Bytes file; std::vector<size_t> reads;                              // read / validate
+    Bytes file; std::vector<size_t> reads;                              // read / validate / random access (reads = chunk numbers)
     Bytes src, tgt; gen::ZFile B;                                       // copy / download
     dl::Response resp; std::vector<size_t> cuts; int limit = -1;
     uint64_t result = 0; std::string detail;
@@ -61,6 +62,19 @@ static void run_prog(Prog &p) {
         int sfd = lib::mkfd(p.src), tfd = lib::mkfd(p.tgt); zckCtx *s = zck_create(), *t = zck_create(); bool ok = zck_init_read(s, sfd) && zck_init_read(t, tfd); h = Hi(h, ok);
         if (ok) { p.pause(); h = Hi(h, zck_find_valid_chunks(t)); zck_reset_failed_chunks(t); p.pause(); h = Hi(h, zck_copy_chunks(s, t)); for (zckChunk *ch = t->index.first; ch; ch = ch->next) h = Hi(h, ch->valid); Bytes f = lib::fd_bytes(tfd); h = H(h, f.data(), f.size()); }
         zck_free(&s); zck_free(&t); close(sfd); close(tfd); break; }
+    case 5: {
+        int fd = lib::mkfd(p.file); zckCtx *z = zck_create(); bool ok = zck_init_read(z, fd); h = Hi(h, ok);
+        auto str = [&](char *t) { if (t) { h = H(h, t, strlen(t)); free(t); } else h = Hi(h, -7); };
+        if (ok) {
+            str(zck_get_header_digest(z)); p.pause(); str(zck_get_data_digest(z)); std::vector<char> buf;
+            for (size_t num : p.reads) { p.pause(); zckChunk *ch = zck_get_chunk(z, num % (size_t)zck_get_chunk_count(z)); if (!ch) { h = Hi(h, -9); continue; }
+                str(zck_get_chunk_digest(ch)); str(zck_get_chunk_digest_uncompressed(ch));
+                ssize_t sz = (num & 64) ? zck_get_chunk_comp_size(ch) : zck_get_chunk_size(ch); if (sz < 0) sz = 0; if (buf.size() < (size_t)sz + 1) buf.resize(sz + 1);
+                ssize_t g = (num & 64) ? zck_get_chunk_comp_data(ch, buf.data(), sz) : zck_get_chunk_data(ch, buf.data(), sz); h = Hi(h, g); if (g > 0) h = H(h, buf.data(), g); }
+            p.pause(); zckRange *r = zck_get_missing_range(z, p.limit); if (r) { h = Hi(h, zck_get_range_count(r)); char *rs = zck_get_range_char(z, r); str(rs); zck_range_free(&r); }
+            const char *e = zck_get_error(z); if (e) h = H(h, e, strlen(e));
+        } else { const char *e = zck_get_error(z); if (e) h = H(h, e, strlen(e)); }
+        zck_free(&z); close(fd); break; }
     default: {
         int tfd = lib::mkfd(p.tgt); zckCtx *z = zck_create(); bool ok = zck_init_read(z, tfd); h = Hi(h, ok);
         if (ok) { (void)!zck_find_valid_chunks(z); zck_reset_failed_chunks(z); zckDL *d = zck_dl_init(z); zckRange *r = zck_get_missing_range(z, p.limit); p.pause();
@@ -78,11 +92,13 @@ struct Arg { Prog *p; Shared *sh; };
 static void *thread_main(void *a) { Arg *x = (Arg *)a; pthread_barrier_wait(&x->sh->bar); run_prog(*x->p); return nullptr; }
 
 static void prop(Ctx &c) {
-    static bool once = false; if (!once) { zck_set_log_level(ZCK_LOG_NONE); once = true; }
+    // global logging settings are chosen per case, before any thread starts (the property's proviso)
+    static int nullfd = -1; if (nullfd < 0) { nullfd = open("/dev/null", O_WRONLY); zck_set_log_fd(nullfd); }
+    bool dbg = c.chance(1, 4); zck_set_log_level(dbg ? ZCK_LOG_DEBUG : ZCK_LOG_NONE); if (dbg) c.label("debug-logging");
     size_t nt = 2 + c.draw(c.tier ? 6 : 4); std::vector<std::unique_ptr<Prog>> progs; std::string kinds;
-    uint64_t same_kind = c.draw(5);            // often force several threads onto the same library path
+    uint64_t same_kind = c.draw(6);            // often force several threads onto the same library path
     for (size_t i = 0; i < nt; i++) {
-        std::unique_ptr<Prog> p(new Prog()); p->kind = same_kind <= 4 && c.chance(2, 3) ? (int)same_kind : (int)c.draw(4);
+        std::unique_ptr<Prog> p(new Prog()); p->kind = same_kind <= 5 && c.chance(2, 3) ? (int)same_kind : (int)c.draw(5);
         size_t nd = c.draw(6); for (size_t k = 0; k < nd; k++) p->delays.push_back((int)c.draw(3) == 0 ? 0 : (int)c.draw(3) == 1 ? 1 : (int)c.draw(40));
         gen::ZFileOpts o; o.max_chunks = 6; o.max_chunk = c.boolean() ? 400 : 40000; o.allow_empty = false;
         switch (p->kind) {
@@ -91,13 +107,14 @@ static void prop(Ctx &c) {
         case 2: { gen::ZFile z = gen::zfile(c, o); p->file = z.file; if (c.boolean()) { size_t i2 = c.pick(z.nchunks()); if (z.clen(i2)) p->file[z.off(i2) + c.pick(z.clen(i2))] ^= 1; } break; }
         case 3: { gen::ZParams q = gen::zparams(c, o); gen::ZFile B = gen::zfile_build(c, q); gen::ZParams qa = q; qa.by_ref = false; if (!qa.chunks.empty() && c.boolean()) qa.chunks[c.pick(qa.chunks.size())] = gen::chunk_content(c, 300); gen::ZFile A = gen::zfile_build(c, qa);
                   p->src = A.file; p->tgt.assign(B.file.begin(), B.file.begin() + B.h.total_size); break; }
+        case 5: { gen::ZFile z = gen::zfile(c, o); p->file = z.file; if (c.chance(1, 5) && z.file.size() > 3) p->file[c.pick(p->file.size())] ^= (uint8_t)(1 + c.draw(254)); size_t nr = 1 + c.draw(12); for (size_t k = 0; k < nr; k++) p->reads.push_back(c.draw(127)); p->limit = c.boolean() ? -1 : (int)c.draw(3); break; }
         default: { p->kind = 4; o.max_chunk = 300; gen::ZFile B = gen::zfile(c, o); p->tgt = B.file; for (size_t k = 0; k < B.nchunks(); k++) if (B.clen(k) && c.chance(2, 3)) std::fill(p->tgt.begin() + B.off(k), p->tgt.begin() + B.off(k) + B.clen(k), 0);
                    // the request the thread will compute is determined by the target: precompute the response
                    int fd = lib::mkfd(p->tgt); zckCtx *z = zck_create(); p->limit = c.boolean() ? -1 : 2;
                    if (zck_init_read(z, fd)) { (void)!zck_find_valid_chunks(z); zck_reset_failed_chunks(z); zckRange *r = zck_get_missing_range(z, p->limit); if (r && zck_get_range_count(r) > 0) { char *rs = zck_get_range_char(z, r); dl::Server srv; srv.file = B.file; srv.style = dl::gen_style(c, true); p->resp = srv.respond(rs ? rs : ""); free(rs); } if (r) zck_range_free(&r); }
                    zck_free(&z); close(fd); p->cuts = dl::gen_cuts(c, p->resp.body.size()); break; }
         }
-        kinds += "WRVCD"[p->kind]; progs.push_back(std::move(p));
+        kinds += "WRVCDA"[p->kind]; progs.push_back(std::move(p));
     }
     c.desc << nt << " threads, programs " << kinds; c.checkpoint();
     // serial baseline
@@ -108,7 +125,7 @@ static void prop(Ctx &c) {
     for (size_t i = 0; i < nt; i++) pthread_join(th[i], nullptr);
     pthread_barrier_destroy(&sh.bar);
     bool same_path = false; for (size_t i = 0; i < nt; i++) for (size_t j = i + 1; j < nt; j++) if (kinds[i] == kinds[j]) same_path = true;
-    if (same_path) c.nontrivial(); c.label(same_path ? "same-path-concurrently" : "all-different-paths"); for (char k : std::string("WRVCD")) if (std::count(kinds.begin(), kinds.end(), k) >= 2) c.label(std::string("2x") + k);
+    if (same_path) c.nontrivial(); c.label(same_path ? "same-path-concurrently" : "all-different-paths"); for (char k : std::string("WRVCDA")) if (std::count(kinds.begin(), kinds.end(), k) >= 2) c.label(std::string("2x") + k);
     for (size_t i = 0; i < nt; i++) if (progs[i]->result != serial[i]) c.fail(std::string("serial-equivalence:") + kinds[i], "thread " + std::to_string(i) + " (program " + kinds[i] + ") produced different outputs when run concurrently with {" + kinds + "} than when run alone");
 }
 
